@@ -147,6 +147,17 @@ CHECKS = {
             "Points within 1e-9 radius of the boundary are tallied as tie zone; np.random is seeded per case; uniformity of random placement is not checked (not part of the property).",
             "independent geometric kernels as oracle over generated shapes, rotations and boundary-ladder queries",
             "DESIGN.md §5 C19"),
+    "C06": ("exploration",
+            "For generated observation sequences (four result types, accumulation on/off, exact dyadic and arbitrary float values) every "
+            "contiguous partition into chunks is accumulated into separate Result objects and merged in a left fold, right fold or random "
+            "binary tree; the merged object's public statistics (value, total, sums, update count, mean, variance, accumulated lists, ==) "
+            "are compared with the single big accumulation (== for the exact class, 64 n eps of the absolute sums for floats).  Every "
+            "object used as merged-in operand is snapshotted and re-compared after the merge and at the end of the history (aliasing).  "
+            "The same law is checked through merge_all_results (incl. the runner's merge-into-empty pattern) / append_all_results on "
+            "1-3 result names, and per union-grid combination for combine_simulation_results with none/partial/full overlap.",
+            "For MISC results only 'last observation wins' (value, lists) is required; chunks are non-empty.",
+            "reference-model comparison (single accumulation) over generated partitions/merge trees + operand-snapshot monitor",
+            "DESIGN.md §5 C06"),
 }
 
 PENDING_REASON = "check not built yet in this session (design in DESIGN.md §5); will be claimed once its monitors run clean on the unchanged tree"
